@@ -83,6 +83,12 @@ def cases(tier, seed):
     for n_, _n2, names in si_cells(tier, hermitian=True):
         for nm in names:
             out.append({"key": f"sih/n={n_}/{nm}", "grp": "xfh", "n": n_, "xf": nm, "row": 0, "_fixed": True})
+    for n in (3, 4, 5, 6):
+        for c in (0, 2):
+            if c + 2 > n - 1 + (1 if c == 0 else 0) and c:
+                continue
+            for e in (-700, -1040, -560):
+                out.append({"key": f"tinycol/n={n}/c={c}/e={e}", "grp": "tinycol", "n": n, "c": c, "e": e, "row": 0})
     for n in (8, 9, 12, 17):
         for st in ("generic", "hermitian", "hess", "ints"):
             out.append({"key": f"{st}/n={n}/large", "grp": "struct", "st": st, "n": n, "row": 0})
@@ -151,6 +157,15 @@ def make(case, seed):
         A = fill.quat_int(n, n, -3, 3).astype(float)
         A[A == 0] = 1.0
         return G.apply_component_mask(A, case["mask"])
+    if grp == "tinycol":
+        # the column segment reduced at step c is non-zero but far below the underflow threshold of its own square (2^-700, 2^-1040 subnormal):
+        # the step must be (numerically) the identity, never a division by an underflowed norm
+        A = fill.quat(n, n, bits=4, lo=-40, hi=40)
+        c = case["c"]
+        if c:
+            A[c:, :c] = 0.0  # decoupled leading block: nothing mixes into column c before its own step
+        A[c + 1 :, c] = np.ldexp(A[c + 1 :, c] + 1.0, case["e"])
+        return A
     if grp == "colmask":
         A = fill.quat(n, n, bits=4, lo=-40, hi=40) if case["cls"] == "generic" else fill.quat_int(n, n, -3, 3).astype(float)
         for k in range(n - 2):
